@@ -109,12 +109,27 @@ def check(chk):
     chk.judge(not cbad and cf['switch'], 'C08.tail', (CMURMUR, 'MurmurHash3_x64_128', 0), 'C: fall-through case table equals the reference for each tail length', 'C tail table differs for tail lengths %s' % cbad)
     bt = pm.func('body_and_tail')
     unpk = [n for n in body_walk(bt) if isinstance(n, ast.Call) and src(n.func) == 'struct.unpack_from' and "'b'" in src(n.args[0])]
-    okp = len(unpk) == 2 and all(src(n.args[0]) == "'b' * tail" and [src(a) for a in n.args[1:]] == ['data', '-tail'] for n in unpk) and operands == set(['tail[i]'])
+    from .c07 import body_tail_facts
+    bt_bad8, signed8 = body_tail_facts(pm, bt)
+    okp = signed8 and not bt_bad8 and operands == set(['tail[i]'])
     chk.judge(okp, 'C08.tail', bt, 'Python: tail bytes unpacked with the signed format b and used unmasked (sign-extended like a Java byte)',
               'tail bytes are not sign-extended (%s / operand %s): a key whose last len %% 16 bytes contain a byte >= 0x80 gets a different token than Cassandra assigns' % ([src(n.args[0]) for n in unpk], sorted(operands)))
+    tz = cf.get('tail_zero') or {}
+    if sorted(tz) != ['k1', 'k2']:
+        raise AnalysisError('cmurmur3.c: block loop / tail switch not recognised')
+    chk.judge(all(tz.values()), 'C08.tail', (CMURMUR, 'MurmurHash3_x64_128', 0), 'C: the tail accumulators k1, k2 are 0 when the tail switch starts (the block loop works on its own k1, k2)',
+              'the block loop assigns the function-level %s that the tail switch xors into: for a key longer than one block whose length is not a multiple of 16 the tail starts from '
+              'the last block\'s mixed value and the token differs from Cassandra\'s' % [v for v, ok_ in sorted(tz.items()) if not ok_])
+    # python side: the tail registers are zeroed between the block loop and the tail
+    zero_py = [st for st in f.body if isinstance(st, ast.Assign) and sorted(src(t) for t in st.targets) == ['k1', 'k2'] and src(st.value) == '0']
+    loops_py = [st for st in f.body if isinstance(st, ast.For)]
+    okz = len(zero_py) == 1 and len(loops_py) >= 1 and f.body.index(loops_py[0]) < f.body.index(zero_py[0]) and \
+        not any(isinstance(x, (ast.Assign, ast.AugAssign)) and any(src(t) in ('k1', 'k2') for t in (x.targets if isinstance(x, ast.Assign) else [x.target]))
+                for st in f.body[f.body.index(zero_py[0]) + 1:] if not isinstance(st, ast.If) for x in ast.walk(st))
+    chk.judge(okz, 'C08.tail', f, 'Python: k1 = k2 = 0 after the block loop, before the tail', 'the tail registers are not reset after the block loop')
     chk.judge(cf['tail_type'] == ('int8_t', 'int8_t') and cf['data_type'] == ('int8_t', 'int8_t'), 'C08.tail', (CMURMUR, 'MurmurHash3_x64_128', 0), 'C: tail bytes read through int8_t* (signed)', 'C tail pointer type is %s' % (cf['tail_type'],))
     blk = [n for n in body_walk(bt) if isinstance(n, ast.Call) and src(n.func) == 'struct.unpack_from' and 'qq' in src(n.args[0])]
-    ok = len(blk) == 1 and src(blk[0].args[0]) == "'<' + 'qq' * nblocks" and 'nblocks = l // 16' in src(bt) and 'tail = l % 16' in src(bt)
+    ok = not bt_bad8
     chk.judge(ok, 'C08.tail', bt, 'blocks: little-endian signed 64-bit pairs, 16 bytes per block, tail = len mod 16', 'block splitting changed')
     body_loop = [n for n in f.body if isinstance(n, ast.For)]
     ok = len(body_loop) == 1 and src(body_loop[0].iter) == 'range(0, len(body), 2)' and [src(s) for s in body_loop[0].body[:2]] == ['k1 = body[i]', 'k2 = body[i + 1]']
@@ -131,8 +146,18 @@ def check(chk):
         consts = dict((k, folder.module_const(k)) for k in ('INT64_MAX', 'INT64_MIN', 'INT64_OVF_OFFSET', 'INT64_OVF_DIV'))
     except Unfoldable as e:
         raise AnalysisError(str(e))
-    ok = consts == {'INT64_MAX': 2 ** 63 - 1, 'INT64_MIN': -2 ** 63, 'INT64_OVF_OFFSET': 2 ** 63, 'INT64_OVF_DIV': 2 ** 64} and \
-        'x = (x + INT64_OVF_OFFSET) % INT64_OVF_DIV - INT64_OVF_OFFSET' in src(tr) and 'if not INT64_MIN <= x <= INT64_MAX' in src(tr)
+    # the function is interpreted on boundary values (all arithmetic on constants folds): the result is x wrapped into [-2**63, 2**63)
+    from ..absint import Interp as _I8
+    bad_tr = []
+    for xv in (0, 1, -1, 2 ** 63 - 1, 2 ** 63, 2 ** 63 + 5, -2 ** 63, -2 ** 63 - 1, 2 ** 64, 2 ** 64 + 7, -2 ** 64 - 3, 3 * 2 ** 64 + 11, 2 ** 127 + 12345):
+        try:
+            outs8 = _I8(pm).run_all(tr, {'x': xv})
+        except Exception as e8:
+            raise AnalysisError('truncate_int64 could not be interpreted: %s' % e8)
+        for o8 in outs8:
+            if o8.kind != 'ok' or o8.value != ((xv + 2 ** 63) % 2 ** 64) - 2 ** 63:
+                bad_tr.append((xv, o8.value))
+    ok = consts == {'INT64_MAX': 2 ** 63 - 1, 'INT64_MIN': -2 ** 63, 'INT64_OVF_OFFSET': 2 ** 63, 'INT64_OVF_DIV': 2 ** 64} and not bad_tr
     chk.judge(ok, 'C08.final', tr, 'truncate_int64 wraps into [-2**63, 2**63) by (x + 2**63) mod 2**64 - 2**63', 'wrap to signed 64 bits changed: %s' % consts)
     rl = pm.func('rotl64')
     ok = 'mask = 2 ** r - 1' in src(rl) and 'rotated = x << r | x >> 64 - r & mask' in src(rl).replace('(', '').replace(')', '')
